@@ -56,6 +56,11 @@ func checkC20(c *core.Ctx) {
 	ruleLeafOperators(c)
 	ruleLateralPush(c)
 	ruleTransactionFilterSides(c)
+	// "with or without a point in time": the columns a filter looks at under a PIT (masked
+	// reverted_at, history metadata) are produced by the PIT projection (C05) and by the history
+	// triggers (C17); their structure is a necessary condition of filtering exactly
+	ruleTemporalClauses(c)
+	ruleHistoryTriggers(c)
 }
 
 // typeOperators evaluates Type*.Operators() from the source.
@@ -530,6 +535,43 @@ func ruleLateralPush(c *core.Ctx) {
 		c.Check(ok, "DOM/lateral-push", fmt.Sprintf("%s:call#%d", astx.FuncKey(s.EnclObj), n), pos(c, s.Call), "canPush = canPushAddressFilterToLateral(query.Builder)", "the lateral address filter is pushed with a safety flag that does not come from canPushAddressFilterToLateral(query.Builder): filters under $not / mixed $or would lose rows")
 	}
 	c.Floor("DOM/lateral-push", "applyLateralAddressFilter call sites", n, 4)
+	// the safety analysis looks at the client's raw filter keys: it must recognise the address
+	// field under every name the schemas accept for it (aliases included)
+	if k := fn(c, pkgStore, "", "isAddressKey"); k != nil {
+		accepted := map[string]bool{}
+		ast.Inspect(k.Decl.Body, func(x ast.Node) bool {
+			switch y := x.(type) {
+			case *ast.BinaryExpr:
+				if y.Op == token.EQL {
+					if s, ok := astx.ConstString(k.Pkg.TypesInfo, y.Y); ok {
+						accepted[s] = true
+					}
+				}
+			case *ast.CaseClause:
+				for _, e := range y.List {
+					if s, ok := astx.ConstString(k.Pkg.TypesInfo, e); ok {
+						accepted[s] = true
+					}
+				}
+			}
+			return true
+		})
+		m := 0
+		for _, sv := range []string{"AccountSchema", "VolumeSchema", "AggregatedBalanceSchema"} {
+			for _, fld := range schemaFields(c, sv) {
+				if fld.Name != "address" {
+					continue
+				}
+				for _, name := range append([]string{fld.Name}, fld.Aliases...) {
+					m++
+					c.Check(accepted[name], "DOM/lateral-push", "isAddressKey:"+sv+":"+name, pos(c, k.Decl), "recognised as an address key", "the lateral-push safety analysis does not recognise `"+name+"` (a name "+sv+" accepts for the address field) as an address filter: an address filter under $not or in a mixed $or written with that name is pushed into the lateral join and rows are lost")
+				}
+			}
+		}
+		c.Floor("DOM/lateral-push", "address field names across schemas", m, 4)
+	} else {
+		c.Unknown("DOM/lateral-push", "isAddressKey", "", "function not found")
+	}
 }
 
 func ruleTransactionFilterSides(c *core.Ctx) {
